@@ -103,3 +103,15 @@ Definition ftype_eqb (a b : ftype) : bool :=
   | _, _ => false end.
 
 Record signature := { sig_params : list dtype; sig_vararg : bool; sig_ret : dtype }.
+
+(* the type a column has after export(Polars()) and re-import with Table(frame): generic Int / Float
+   are stored as Int64 / Float64, String loses its max_length, const is a compile-time notion *)
+Fixpoint storage_type (t : dtype) : dtype :=
+  match t with
+  | TS SInt => TS SInt64
+  | TS SFloat => TS SFloat64
+  | TStr _ => TStr None
+  | TList b => TList (storage_type b)
+  | TConst b => storage_type b
+  | _ => t
+  end.
